@@ -134,7 +134,143 @@ def evaluate_mapk(repo: Path):
         return None
 
 
-def render(rows, mapk=None) -> str:
+def evaluate_hist(repo: Path):
+    """`_results_history` / `get_history` of the real Cascade, evaluated: the final outputs kept after 1005 runs on the inputs
+    0..1004 (one identity stage), the length after a following run_parallel and after one more run, whether the record of a
+    run whose on_cascade_complete raised is kept, whether a failed fork of an empty cascade records nothing, the final outputs
+    get_history(k) hands out on a five-record history for k in -7..7, and the length handed out without an argument on a
+    105-record history.  None when anything does not evaluate (fail closed)."""
+    try:
+        from operon_ai.topology import cascade as m
+        if not str(Path(m.__file__).resolve()).startswith(str(Path(repo).resolve())):
+            return None
+        BIG = 10 ** 6
+        c = m.Cascade("h", silent=True)
+        c.add_stage(m.CascadeStage("s", lambda x: x))
+        for i in range(1005):
+            c.run(i)
+        kept = c.get_history(BIG)
+        finals = [r.final_output for r in kept]
+        if not all(isinstance(v, int) and not isinstance(v, bool) and v >= 0 for v in finals) or not all(r.success for r in kept):
+            return None
+        c.run_parallel(7)
+        after_par = len(c.get_history(BIG))
+        c.run(9)
+        after_run = len(c.get_history(BIG))
+
+        def boom(result):
+            raise RuntimeError("observer")
+        c2 = m.Cascade("h2", silent=True, on_cascade_complete=boom)
+        try:
+            c2.run(1)
+            raised = False
+        except RuntimeError:
+            raised = True
+        kept_when_raising = raised and len(c2.get_history(5)) == 1
+        c3 = m.Cascade("h3", silent=True)
+        try:
+            c3.run_parallel(1)
+            empty_nothing = False
+        except ValueError:
+            empty_nothing = len(c3.get_history(5)) == 0
+        c4 = m.Cascade("h4", silent=True)
+        c4.add_stage(m.CascadeStage("s", lambda x: x))
+        for i in range(5):
+            c4.run(i)
+        slices = []
+        for k in range(-7, 8):
+            out = [r.final_output for r in c4.get_history(k)]
+            if not all(isinstance(v, int) and 0 <= v < 5 for v in out):
+                return None
+            slices.append((k, out))
+        for i in range(100):
+            c4.run(i)
+        default_len = len(c4.get_history())
+        return finals, after_par, after_run, kept_when_raising, empty_nothing, slices, default_len
+    except Exception:
+        return None
+
+
+def evaluate_agent(repo: Path):
+    """`AgentCascade.add_agent_stage` evaluated with a stub agent class installed as the module's BioAgent: a list of yes/no
+    facts (see render) and the factors of a stage registered with amplification=3 and of one registered with the defaults."""
+    try:
+        from operon_ai.topology import cascade as m
+        if not str(Path(m.__file__).resolve()).startswith(str(Path(repo).resolve())):
+            return None
+        orig = m.BioAgent
+        made, calls = [], []
+
+        class Stub:
+            mode = "ok"
+
+            def __init__(self, name, role, atp_store):
+                self.name, self.role, self.atp = name, role, atp_store
+                made.append(self)
+
+            def express(self, signal):
+                calls.append(signal)
+                if Stub.mode == "raise":
+                    raise KeyError("express")
+                return m.ActionProtein("EXECUTE", payload, 1.0)
+        payload = object()
+        budget = object()
+        added = []
+
+        class Rec(m.AgentCascade):
+            def add_stage(self, stage, *a, **kw):
+                added.append(stage)
+                return super().add_stage(stage, *a, **kw)
+        m.BioAgent = Stub
+        try:
+            ac = Rec("a", budget, silent=True)
+            gate = lambda x: True      # noqa: E731
+            back = ac.add_agent_stage("ag", "Role", amplification=3.0, checkpoint=gate)
+            n1 = len(added)
+            ac.add_agent_stage("ag2")
+            n2 = len(added)
+            if n1 != 1 or n2 != 2 or len(made) != 2:
+                return None
+            s1, s2 = added
+            raw_out = s1.processor(5)
+            raw_seen = calls[-1]
+            sg = m.Signal(content="q")
+            sig_out = s1.processor(sg)
+            sig_seen = calls[-1]
+            Stub.mode = "raise"
+            try:
+                s1.processor(5)
+                propagates = False
+            except KeyError:
+                propagates = True
+            except Exception:
+                propagates = False
+            Stub.mode = "ok"
+            flags = [
+                m.AgentCascade.run is m.Cascade.run and m.AgentCascade.run_parallel is m.Cascade.run_parallel
+                and m.AgentCascade.get_history is m.Cascade.get_history,              # 0 the entry points are the inherited ones
+                s1.checkpoint is gate,                                                   # 1 the checkpoint handed in is the stage's gate
+                s2.checkpoint is None,                                                   # 2 no checkpoint handed in: ungated
+                s1.on_error is None and s2.on_error is None,                             # 3 no error handler
+                s1.required is True and s2.required is True,                             # 4 required
+                made[0].atp is budget and made[0].name == "ag" and made[0].role == "Role",   # 5 the agent is built on the cascade's budget
+                raw_out is payload and isinstance(raw_seen, m.Signal) and raw_seen.content == "5",   # 6 raw signal wrapped, payload returned as it is
+                sig_out is payload and sig_seen is sg,                                   # 7 a Signal is handed over as it is
+                propagates,                                                              # 8 an exception of express is the processor's
+                back is ac and list(ac._stages) == added,                                # 9 one stage per call, registered in order, chaining
+                s1.name == "ag" and s2.name == "ag2",                                    # 10 the stage is named after the agent
+            ]
+            a1, a2 = s1.amplification, s2.amplification
+            if a1 != int(a1) or a2 != int(a2) or a1 < 0 or a2 < 0:
+                return None
+            return [bool(x) for x in flags], int(a1), int(a2)
+        finally:
+            m.BioAgent = orig
+    except Exception:
+        return None
+
+
+def render(rows, mapk=None, hist=None, agent=None) -> str:
     b = lambda x: "true" if x else "false"
     on = lambda x: "none" if x is None else f"(some {x})"
     lines = []
@@ -154,6 +290,17 @@ def render(rows, mapk=None) -> str:
         attrs, mrows = mapk
         mapk_s = ("some ([" + ", ".join(f"({b(g)}, {a}, {b(r)}, {b(h)})" for (g, a, r, h) in attrs) + "], ["
                   + ", ".join(f"({k}, {a}, {g}, {pc})" for (k, a, g, pc) in mrows) + "])")
+    if hist is None:
+        hist_s = "none"
+    else:
+        finals, after_par, after_run, kept, empty_nothing, slices, default_len = hist
+        hist_s = ("some ([" + ", ".join(map(str, finals)) + f"], {after_par}, {after_run}, {b(kept)}, {b(empty_nothing)}, ["
+                  + ", ".join(f"(({k} : Int), [" + ", ".join(map(str, o)) + "])" for k, o in slices) + f"], {default_len})")
+    if agent is None:
+        agent_s = "none"
+    else:
+        flags, a1, a2 = agent
+        agent_s = "some ([" + ", ".join(b(x) for x in flags) + f"], {a1}, {a2})"
     return f"""/- GENERATED by harness/vf/extract/e_cascade.py by evaluating the real Cascade.run — do not edit. -/
 namespace Operon.Gen.CascadeTable
 
@@ -173,6 +320,19 @@ abbrev Row := Nat × Bool × List (Nat × Nat × Nat × Bool) × Bool × Option 
     (tier index, abstract input 0 raw / k = dict of tier k, gate answer 0 false 1 true 2 raises 3 no gate, tier of the processor's
     output or 9 = raises) -/
 def mapkFacts : Option (List (Bool × Nat × Bool × Bool) × List (Nat × Nat × Nat × Nat)) := {mapk_s}
+
+/-- the history of the real Cascade evaluated: (final outputs of the records kept after 1005 runs on the inputs 0..1004, number of
+    records after a following run_parallel, after one more run, the record of a run whose on_cascade_complete raised is kept, a
+    failed fork of an empty cascade records nothing, final outputs handed out by get_history(k) on the five-record history
+    0..4 for k = -7..7, number of records handed out by get_history() on a 105-record history) -/
+def histFacts : Option (List Nat × Nat × Nat × Bool × Bool × List (Int × List Nat) × Nat) := {hist_s}
+
+/-- `AgentCascade.add_agent_stage` evaluated with a stub agent class: (0 run / run_parallel / get_history are the inherited ones,
+    1 the checkpoint handed in is the stage's gate, 2 none handed in: ungated, 3 no error handler, 4 required, 5 the agent is
+    built on the cascade's budget, 6 a raw signal reaches express as Signal(content=str(x)) and the payload is returned as it
+    is, 7 a Signal is handed over as it is, 8 an exception of express is the processor's, 9 one stage per call in order,
+    10 named after the agent), factor of a stage registered with amplification=3, factor registered by default -/
+def agentFacts : Option (List Bool × Nat × Nat) := {agent_s}
 
 end Operon.Gen.CascadeTable
 """
